@@ -10,6 +10,7 @@ From MW Require Import C05.Heap C05.TreeOps C06.Model C06.ModelNesting.
 From MW Require C06.Gen_api C06.ProofsGen C06.Proofs C06.ProofsExtra C07.Proofs.
 From MW Require C06.ProofsNesting C06.ProofsNestingExtra C06.ModelNav C06.ProofsNav C06.ProofsNavFuel.
 From MW Require C06.Gen_nesting C06.ProofsNestingGen.
+From MW Require C06.ModelNestingHeap C06.ProofsNestingHeap.
 Import ListNotations.
 
 (* every attribute name used on a non-module receiver in treecleaner.py / treecleanerhelper.py is defined by
@@ -274,3 +275,76 @@ Theorem C06_nesting_tables_generated :
   (forall k, invis_real k = memb k Gen_nesting.gen_invisible).
 Proof. exact ProofsNestingGen.gen_tables_agree. Qed.
 Print Assumptions C06_nesting_tables_generated.
+
+(* ---- fix_nesting on the HEAP (C06/ModelNestingHeap.v): the call sequence of one repair (treecleaner.py:877-899)
+   copy / _filter_tree / copy / _filter_tree / children[0] / copy / _filter_tree / parent.replace_child(bad_parent,
+   [top, middle, bottom]) replayed cell by cell with the API of C05/Heap.v.
+   _filter_tree (835-840, recursion over a snapshot of the children, remove_child of every marked node) on a
+   tree of the heap whose root is not marked, for ANY marking `drop`: never raises (fuel = number of heap cells + 1
+   suffices), afterwards the heap represents the filtered tree (still duplicate-free, a subset of the old nodes) under
+   the same parent, and no cell outside the tree has changed *)
+Theorem C06_filter_tree_heap : forall drop h q s,
+  repr h q s -> NoDup (ids s) -> drop (tid s) = false ->
+  exists h', C06.ModelNestingHeap.hfilter (S (List.length h)) drop h (tid s) = Ok h' /\
+             repr h' q (C06.ModelNestingHeap.tfilter drop s) /\
+             NoDup (ids (C06.ModelNestingHeap.tfilter drop s)) /\
+             incl (ids (C06.ModelNestingHeap.tfilter drop s)) (ids s) /\
+             (forall j, ~ In j (ids s) -> get h' j = get h j).
+Proof. exact C06.ProofsNestingHeap.hfilter_tree. Qed.
+Print Assumptions C06_filter_tree_heap.
+
+(* one repair, for ANY node B of a proper document and ANY three markings of the three copies (in particular those
+   _mark_nodes computes).  Outcomes: normal return; IndexError of middle_tree.children[0]; AttributeError because
+   bad_parent.parent is None (only when B is the root) - nothing else is possible (RErr), and in ALL three cases the
+   heap the cleaner (or the catch-all of TreeCleaner.clean) goes on with is a proper tree (WF of C05: every node once,
+   parent links = listing node, no cycles).  The middle child still carries its parent link to the discarded middle
+   copy when replace_child is called - replace_child overwrites it. *)
+Theorem C06_fix_nesting_repair_heap_WF : forall d1 d2 d3 h r t B,
+  tid t = r -> repr h None t -> NoDup (ids t) -> In B (ids t) ->
+  match C06.ModelNestingHeap.repair d1 d2 d3 h B with
+  | C06.ModelNestingHeap.ROk h' => WF h' r
+  | C06.ModelNestingHeap.RIndexError h' => WF h' r
+  | C06.ModelNestingHeap.RNoParent h' => WF h' r /\ par h B = None
+  | C06.ModelNestingHeap.RErr => False
+  end.
+Proof. exact C06.ProofsNestingHeap.repair_preserves_WF. Qed.
+Print Assumptions C06_fix_nesting_repair_heap_WF.
+
+(* ... hence after any number of iterations of `while self._fix_nesting(node)`, whatever bad parents and marks
+   the search picks, the document is a proper tree ... *)
+Theorem C06_fix_nesting_heap_preserves_WF : forall r h h',
+  WF h r -> C06.ProofsNestingHeap.repair_steps r h h' -> WF h' r.
+Proof. exact C06.ProofsNestingHeap.repair_steps_WF. Qed.
+Print Assumptions C06_fix_nesting_heap_preserves_WF.
+
+(* ... also when the last iteration raises *)
+Theorem C06_fix_nesting_heap_raise_preserves_WF : forall r h h1 d1 d2 d3 t B h',
+  WF h r -> C06.ProofsNestingHeap.repair_steps r h h1 ->
+  tid t = r -> repr h1 None t -> NoDup (ids t) -> In B (ids t) ->
+  (C06.ModelNestingHeap.repair d1 d2 d3 h1 B = C06.ModelNestingHeap.RIndexError h' \/
+   C06.ModelNestingHeap.repair d1 d2 d3 h1 B = C06.ModelNestingHeap.RNoParent h') -> WF h' r.
+Proof. exact C06.ProofsNestingHeap.repair_steps_then_raise_WF. Qed.
+Print Assumptions C06_fix_nesting_heap_raise_preserves_WF.
+
+Example C06_fix_nesting_repair_heap_example :
+  WF C06.ProofsNestingHeap.hx 1 /\ par C06.ProofsNestingHeap.hx 2 = Some 1%N /\
+  exists h', C06.ModelNestingHeap.repair C06.ProofsNestingHeap.dx1 C06.ProofsNestingHeap.dx2 C06.ProofsNestingHeap.dx3
+                                         C06.ProofsNestingHeap.hx 2 = C06.ModelNestingHeap.ROk h' /\
+             kids h' 1 = [6; 12; 14]%N /\ kids h' 6 = [7]%N /\ kids h' 14 = [17]%N /\ par h' 12 = Some 1%N /\
+             wfb h' 1 = true /\ words h' 1 = words C06.ProofsNestingHeap.hx 1.
+Proof. exact C06.ProofsNestingHeap.repair_example. Qed.
+Print Assumptions C06_fix_nesting_repair_heap_example.
+
+Example C06_fix_nesting_repair_heap_index_error_example :
+  exists h', C06.ModelNestingHeap.repair C06.ProofsNestingHeap.dx1 (fun _ => true) C06.ProofsNestingHeap.dx3
+                                         C06.ProofsNestingHeap.hx 2 = C06.ModelNestingHeap.RIndexError h' /\
+             wfb h' 1 = true /\ kids h' 1 = [2]%N.
+Proof. exact C06.ProofsNestingHeap.repair_index_error_example. Qed.
+Print Assumptions C06_fix_nesting_repair_heap_index_error_example.
+
+Example C06_fix_nesting_repair_heap_no_parent_example :
+  exists h', C06.ModelNestingHeap.repair (fun _ => false) (fun _ => false) (fun _ => false)
+                                         C06.ProofsNestingHeap.hx 1 = C06.ModelNestingHeap.RNoParent h' /\
+             wfb h' 1 = true /\ words h' 1 = words C06.ProofsNestingHeap.hx 1.
+Proof. exact C06.ProofsNestingHeap.repair_no_parent_example. Qed.
+Print Assumptions C06_fix_nesting_repair_heap_no_parent_example.
